@@ -71,6 +71,8 @@ def run_interleave(case):
     dims["noise"] = [x for x in dims["noise"] if x != "bg"]
     dims["remote"] = rng.choice(["swap", "swap", "same", "small", "random"])
     dims["id_start"] = rng.choice([0, 0, 2, 0xFFFFFFFC])
+    if case["seed"][-1] in "37":
+        dims["remote"] = "reuse"        # the device re-uses the ids of streams that have ended (lowest free id): a later generator gets the id of one that is finished
     if case.get("early_close"):
         dims["early_close"] = True      # the device closes a stream right behind its last WRTE, without waiting for the acknowledgement
     sess = gen.make_session(impl, dims, case["seed"])
